@@ -481,10 +481,21 @@ def judge(ctx, files, request, klass, o, terms, meta):
         return
     for f in o["cmp"]:
         for d in f["diffs"]:
-            k2 = "descriptor-differs:" + norm_path(d)
-            if not excluded(k2, replay, o):
-                ctx.violation(k2, "both compilers accept the file set but the descriptors of %s differ at %s" % (f["path"], d),
-                              dict(replay, file=f["path"], differences=f["diffs"], details=f.get("details", [])))
+            keys = set()
+            if d.endswith(".default_value"):
+                # one key per cause: -0 written as an integer literal is its own, whatever the field type
+                for det in f.get("details", []):
+                    if det.startswith(d + ": "):
+                        if det.endswith('stable="0" experimental="-0"'):
+                            keys.add("descriptor-differs:message_type.field.default_value:negative-zero-integer-literal")
+                        else:
+                            keys.add("descriptor-differs:" + norm_path(d))
+            if not keys:
+                keys.add("descriptor-differs:" + norm_path(d))
+            for k2 in sorted(keys):
+                if not excluded(k2, replay, o):
+                    ctx.violation(k2, "both compilers accept the file set but the descriptors of %s differ at %s" % (f["path"], d),
+                                  dict(replay, file=f["path"], differences=f["diffs"], details=f.get("details", [])))
     for f, tr in zip(o["cmp"], o.get("trees") or []):
         terms.append("DC (%s) (%s) %s" % (tree_term(tr["old"]), tree_term(tr["new"]), coq_bool(f["equal"])))
         meta.append(("compile", replay, f))
